@@ -661,9 +661,11 @@ func (db *DB) close() (err error) {
 	if syncErr := db.syncDir(db.opt.Dir); err == nil {
 		err = y.Wrap(syncErr, "DB.Close")
 	}
+	vevent(10, db.opt.Dir, 0, 0) // verif: syncdir
 	if syncErr := db.syncDir(db.opt.ValueDir); err == nil {
 		err = y.Wrap(syncErr, "DB.Close")
 	}
+	vevent(10, db.opt.ValueDir, 0, 0) // verif: syncdir
 
 	return err
 }
@@ -1999,6 +2001,7 @@ func createDirs(opt Options) error {
 			if err != nil {
 				return y.Wrapf(err, "Error Creating Dir: %q", path)
 			}
+			vevent(13, path, 0, 0) // verif: mkdir
 		}
 	}
 	return nil
